@@ -234,6 +234,37 @@ Theorem scanner_total : forall (m0 : mode) (data : list Z),
   snd (scan M m0 data) <> OutOfFuel.
 Proof. intros. unfold scan. apply run_total. lia. Qed.
 
+(* ---- no Go panic, given a state invariant that every action preserves ------------- *)
+
+Section Invariant.
+Variable Inv : lstate mode -> Prop.
+Hypothesis step_ok : forall (st : lstate mode) (r : rule mode) s lk n,
+  Inv st -> In r (m_rules M (l_cur st)) -> r_match r s = Some (lk, n) -> (0 < lk)%nat ->
+  exists e st', r_act r st (firstn (Nat.max 1 n) s) = Some (e, st') /\ Inv st'.
+
+Lemma run_no_panic : forall fuel off s (st : lstate mode),
+  Inv st -> snd (run M fuel off s st) <> Panicked.
+Proof.
+  induction fuel as [|f IH]; intros off s st Hi; [simpl; discriminate|]. rewrite run_S.
+  destruct s as [|c s']; [simpl; discriminate|].
+  destruct (pick (m_rules M (l_cur st)) (c :: s') None) as [[[r lk] n]|] eqn:Ep; [|simpl; discriminate].
+  apply pick_spec in Ep. destruct Ep as [Ep|(Hin & Hm & Hlk)]; [discriminate|].
+  cbv zeta. destruct (step_ok _ _ Hi Hin Hm Hlk) as (e & st' & Ha & Hi'). rewrite Ha.
+  specialize (IH (off + zlen (firstn (Nat.max 1 n) (c :: s'))) (skipn (Nat.max 1 n) (c :: s')) st' Hi').
+  destruct (run M f _ _ st') as [its fin]. exact IH.
+Qed.
+
+(* with such an invariant every scan ends normally *)
+Theorem scan_done : forall (m0 : mode) (data : list Z),
+  Inv (init_state m0) -> exists its, scan M m0 data = (its, Done).
+Proof.
+  intros m0 data Hi. pose proof (scanner_total m0 data) as Ht.
+  pose proof (run_no_panic (S (length data)) 0 data Hi) as Hp. unfold scan in *.
+  destruct (run M (S (length data)) 0 data (init_state m0)) as [its fin]. simpl in *.
+  exists its. destruct fin; congruence.
+Qed.
+End Invariant.
+
 (* ---- tiling, stated on the token list --------------------------------------------- *)
 
 (* a gap is a concatenation of skipped matches *)
